@@ -32,11 +32,13 @@ type netRun struct {
 	hashPeer     *chaosPeer
 	hashPeerNode *netNode
 	flood        bool
+	tight        bool // followers with their own, much smaller size limits than the publisher's blocks
 	latePeers    int
 	annt         map[*link][]int // ANNT frames of the current step per link: number of hashes
 	// C23
 	lastGetB map[*link]daemon.GetBlocksMessage // last GETB delivered to the owner of the link
 	lastGetT map[*link][]cipher.SHA256
+	expGivT  map[*link]expGivT // what the reply to the scripted peer's last GETT must be
 	// C10: byte strings honest signers emitted
 	honestTxn map[model.Hash]bool
 	pubBlocks map[uint64]model.Block
@@ -53,7 +55,7 @@ func runNetwork(c *sim.Ctx) {
 	w := newWorld(c, followers, worldOpts{hugeWeight: 0, smallSizes: small})
 	defer w.closeAll()
 	r := &netRun{c: c, w: w, prop: c.Property, lastGetB: map[*link]daemon.GetBlocksMessage{}, lastGetT: map[*link][]cipher.SHA256{},
-		honestTxn: map[model.Hash]bool{}, pubBlocks: map[uint64]model.Block{}}
+		honestTxn: map[model.Hash]bool{}, pubBlocks: map[uint64]model.Block{}, expGivT: map[*link]expGivT{}}
 	r.ns = newNetSim(c, w)
 	r.ns.drawKnobs(true)
 	if small {
@@ -87,6 +89,19 @@ func runNetwork(c *sim.Ctx) {
 		c.Count("mode.long_chain")
 		c.Notef("long chain: publisher head %d", len(r.w.nodes[0].m.Chain)-1)
 	}
+	if c.Property == "C23" && !small && r.ns.knobs.maxGetBlocksResp <= 128 && t.Chance("tight-relay", 1, 6) {
+		// followers run with their own block size setting at the legal minimum and an outgoing limit just above what
+		// that requires - legal, every node validates its limit against its own setting only - while the publisher
+		// makes blocks as large as the network-wide setting allows: a follower that is asked for blocks may hold blocks
+		// that do not fit any message it may send
+		r.tight = true
+		r.ns.perNode = map[int]nodeLimits{}
+		for i := 1; i < len(w.nodes); i++ {
+			minLen := uint64(4+4+(4+8+8+8+32+32+32+4+65)) + 1024
+			r.ns.perNode[w.nodes[i].id] = nodeLimits{blockSize: 1024, maxOut: minLen + uint64(t.Int("tight-max-out-len", 1500))}
+		}
+		c.Count("mode.tight_relay")
+	}
 	defer r.ns.shutdown()
 	for i, n := range w.nodes {
 		r.nodes = append(r.nodes, r.ns.addDaemon(n, fmt.Sprintf("10.0.0.%d", i+1), 6000, uint32(0x100+i)))
@@ -95,7 +110,7 @@ func runNetwork(c *sim.Ctx) {
 	r.ns.onSendError = func(n *netNode, l *link, err error) {
 		if r.prop == "C23" && errors.Is(err, gnet.ErrMsgExceedsMaxLen) {
 			what := "?"
-			c.Violate("built-message-does-not-fit", "exceeds-max-len", "node %d built a message for %s that its own send step refuses as longer than the configured maximum (%d): %v [%s]", n.id, l.remote, r.ns.knobs.maxOutgoingMsgLen, err, what)
+			c.Violate("built-message-does-not-fit", "exceeds-max-len", "node %d built a message for %s that its own send step refuses as longer than the configured maximum (%d): %v [%s]", n.id, l.remote, n.maxOut, err, what)
 		} else if r.prop == "C23" && (errors.Is(err, encoder.ErrMaxLenExceeded) || strings.Contains(err.Error(), "exceeds")) {
 			// the simulated connection itself never fails a write: what remains is a message the node built and cannot encode
 			c.Violate("built-message-cannot-be-encoded", "item-cap", "node %d built a message for %s that cannot be encoded (more items than the message type allows?): %v", n.id, l.remote, err)
@@ -104,7 +119,7 @@ func runNetwork(c *sim.Ctx) {
 	// topology: every follower dials the publisher; with two followers the second may dial the first instead
 	for i := 1; i < len(r.nodes); i++ {
 		target := r.nodes[0]
-		if i == 2 && t.Bool("chain-topology") {
+		if i == 2 && (t.Bool("chain-topology") || r.tight) {
 			target = r.nodes[1]
 		}
 		if _, _, err := r.ns.connectNodes(r.nodes[i], target, uint16(40000+i)); err != nil {
@@ -113,9 +128,12 @@ func runNetwork(c *sim.Ctx) {
 		r.ns.pump()
 		r.drainAll()
 	}
-	if small {
+	if small || r.tight {
 		// a scripted peer that announces long lists of transaction hashes nobody has: the node asks for them
 		target := r.nodes[t.Int("hash-peer-target", len(r.nodes))]
+		if r.tight {
+			target = r.nodes[1+t.Int("tight-peer-target", len(r.nodes)-1)]
+		}
 		cp, err := r.ns.newChaos(target, "hashpeer", "10.0.9.1:7000")
 		if err != nil {
 			sim.Harnessf("attach hash peer: %v", err)
@@ -257,7 +275,7 @@ func (r *netRun) announceHashes() {
 	c.Count("fault.hash_list_announced")
 	c.Kind(9, true)
 	c.Logf("hash peer announces %d hashes (%d known) to node %d", cnt, len(isKnown), n.id)
-	max := r.ns.knobs.maxOutgoingMsgLen
+	max := n.maxOut
 	fit := uint64(0)
 	if max >= 8 {
 		fit = (max - 8) / 32 // id (4) + count (4) + 32 n <= max
@@ -478,7 +496,7 @@ func (r *netRun) latePeer() {
 	if herr != nil || c.Failed() {
 		return
 	}
-	max := r.ns.knobs.maxOutgoingMsgLen
+	max := n.maxOut
 	fit := 0
 	if max >= 8 {
 		fit = int((max - 8) / 32)
@@ -518,7 +536,14 @@ func (r *netRun) step() {
 	c := r.c
 	t := c.T
 	if r.hashPeer != nil && t.Chance("hash-peer-op", 1, 5) {
-		r.announceHashes()
+		switch t.Pick("hash-peer-what", 3, 3, 2) {
+		case 0:
+			r.announceHashes()
+		case 1:
+			r.askTxns()
+		case 2:
+			r.askBlocks()
+		}
 		return
 	}
 	if r.flood && t.Chance("flood-op", 1, 4) {
@@ -706,7 +731,7 @@ func (r *netRun) monitor(from *netNode, l *link, f []byte) {
 		c.Violate("malformed-frame-sent", "frame", "node %d put a malformed frame on the wire", from.id)
 		return
 	}
-	max := r.ns.knobs.maxOutgoingMsgLen
+	max := from.maxOut
 	c.Count("wire." + p)
 	if r.prop != "C23" {
 		return
@@ -726,6 +751,42 @@ func (r *netRun) monitor(from *netNode, l *link, f []byte) {
 			}
 			r.annt[l] = append(r.annt[l], len(m.Transactions))
 		}
+	case "GIVT":
+		want, asked := r.expGivT[l]
+		if !asked {
+			return
+		}
+		delete(r.expGivT, l)
+		var m daemon.GiveTxnsMessage
+		if _, err := m.Decode(b); err != nil {
+			c.Violate("malformed-frame-sent", "GIVT", "node %d sent an undecodable GIVT", from.id)
+			return
+		}
+		got := make([]string, len(m.Transactions))
+		for i := range m.Transactions {
+			got[i] = m.Transactions[i].Hash().Hex()[:8]
+		}
+		same := len(got) == len(want.fit)
+		for i := 0; same && i < len(got); i++ {
+			same = got[i] == want.fit[i]
+		}
+		if !same {
+			kind := "fewer"
+			if len(got) > len(want.fit) {
+				kind = "more"
+			} else if len(got) == len(want.fit) {
+				kind = "other"
+			}
+			c.Violate("not-longest-fitting-prefix", "GIVT:"+kind, "node %d answered a request for %d of its pending transactions (sizes %v) with %d transactions %v; the longest prefix fitting %d bytes is %d: %v", from.id, len(want.sizes), want.sizes, len(got), got, max, len(want.fit), want.fit)
+			return
+		}
+		if len(want.fit) < len(want.sizes) {
+			c.Count("probe.givt_truncated_by_length")
+		}
+		if want.exact {
+			c.Count("probe.givt_prefix_fills_limit_exactly")
+		}
+		c.Count("probe.givt_prefix_checked")
 	case "GIVB":
 		var m daemon.GiveBlocksMessage
 		if _, err := m.Decode(b); err != nil {
@@ -733,14 +794,14 @@ func (r *netRun) monitor(from *netNode, l *link, f []byte) {
 			return
 		}
 		g, asked := r.lastGetB[l]
-		if !asked || len(m.Blocks) == 0 {
+		if !asked {
 			return
 		}
-		delete(r.lastGetB, l)
-		first := m.Blocks[0].Head.BkSeq
-		if first != g.LastBlock+1 {
+		if len(m.Blocks) > 0 && m.Blocks[0].Head.BkSeq != g.LastBlock+1 {
 			return // an unsolicited block broadcast (the publisher's new block)
 		}
+		delete(r.lastGetB, l)
+		// (a reply without blocks is what is left when not even the first block fits)
 		// what was requested: blocks after LastBlock, at most min(requested, response cap, 128), as far as the sender's chain goes
 		cnt := g.RequestedBlocks
 		if cnt > r.ns.knobs.maxGetBlocksResp {
@@ -779,6 +840,9 @@ func (r *netRun) monitor(from *netNode, l *link, f []byte) {
 		}
 		if fit < len(sizes) {
 			c.Count("probe.givb_truncated_by_length")
+		}
+		if fit == 0 && len(sizes) > 0 {
+			c.Count("probe.givb_first_block_does_not_fit")
 		}
 		c.Count("probe.givb_prefix_checked")
 	}
@@ -983,3 +1047,150 @@ func (r *netRun) tamperTxn(mt *model.Txn) string {
 var _ = errors.New
 var _ = gnet.ErrMsgExceedsMaxLen
 var _ = strings.Join
+
+type expGivT struct {
+	sizes []uint64 // sizes of the requested transactions the node has, in request order
+	fit   []string // short hashes of the longest prefix that fits the node's limit
+	exact bool     // that prefix fills the limit to the byte
+}
+
+// askTxns: the scripted peer asks a node for transactions of its pool (and some nobody has).  The reply must be the
+// longest prefix, in request order, of the ones the node has that fits its outgoing limit.  When some subset of the
+// pool adds up to the limit exactly, it is asked for first: the boundary where "fits" and "does not fit" meet.
+func (r *netRun) askTxns() {
+	c := r.c
+	t := c.T
+	cp, n := r.hashPeer, r.hashPeerNode
+	if cp == nil || cp.l.dead {
+		return
+	}
+	utxs, err := n.v.GetAllUnconfirmedTransactions()
+	if err != nil {
+		sim.Harnessf("GetAllUnconfirmedTransactions: %v", err)
+	}
+	if len(utxs) == 0 {
+		return
+	}
+	type ptx struct {
+		h    cipher.SHA256
+		size uint64
+	}
+	pool := make([]ptx, 0, len(utxs))
+	for i := range utxs {
+		mt := mTxn(&utxs[i].Transaction)
+		pool = append(pool, ptx{utxs[i].Transaction.Hash(), mt.Size()})
+	}
+	sort.Slice(pool, func(i, j int) bool { return pool[i].h.Hex() < pool[j].h.Hex() })
+	// shuffle by the tape
+	for i := len(pool) - 1; i > 0; i-- {
+		j := t.Int("askt-shuffle", i+1)
+		pool[i], pool[j] = pool[j], pool[i]
+	}
+	if len(pool) > 200 {
+		pool = pool[:200]
+	}
+	max := n.maxOut
+	// subset of the pool whose sizes add up to max-8 exactly (id + count + transactions), if there is one
+	exact := false
+	if max > 8 && max-8 < 1<<16 {
+		target := int(max - 8)
+		from := make([]int, target+1) // from[s] = index+1 of the last transaction used to reach sum s
+		reach := make([]bool, target+1)
+		reach[0] = true
+		for i, p := range pool {
+			sz := int(p.size)
+			for s2 := target; s2 >= sz; s2-- {
+				if !reach[s2] && reach[s2-sz] && from[s2-sz] != i+1 {
+					reach[s2] = true
+					from[s2] = i + 1
+				}
+			}
+		}
+		if reach[target] && t.Chance("askt-exact", 3, 4) {
+			used := map[int]bool{}
+			for s2 := target; s2 > 0; {
+				i := from[s2] - 1
+				used[i] = true
+				s2 -= int(pool[i].size)
+			}
+			var first, rest []ptx
+			for i, p := range pool {
+				if used[i] {
+					first = append(first, p)
+				} else {
+					rest = append(rest, p)
+				}
+			}
+			pool = append(first, rest...)
+			exact = true
+		}
+	}
+	var hs []cipher.SHA256
+	var exp expGivT
+	total := uint64(8)
+	stopped := false
+	for _, p := range pool {
+		if len(hs) >= 250 {
+			break
+		}
+		if t.Chance("askt-unknown", 1, 8) {
+			var u cipher.SHA256
+			copy(u[:], t.Bytes("hash", 32))
+			u[0] |= 1
+			hs = append(hs, u)
+		}
+		hs = append(hs, p.h)
+		exp.sizes = append(exp.sizes, p.size)
+		if !stopped && total+p.size <= max {
+			total += p.size
+			exp.fit = append(exp.fit, p.h.Hex()[:8])
+		} else {
+			stopped = true
+		}
+	}
+	exp.exact = exact && total == max && stopped
+	r.expGivT[cp.l] = exp
+	m := daemon.NewGetTxnsMessage(hs, 1<<20)
+	before := len(cp.received)
+	r.ns.deliver(cp.l, frame("GETT", body(m)), nil)
+	r.ns.pump()
+	c.Count("fault.transactions_requested_by_scripted_peer")
+	c.Kind(12, exact)
+	c.Logf("scripted peer asks n%d for %d transactions (%d of its pool, limit %d, exact-fit subset %v)", n.id, len(hs), len(exp.sizes), max, exact)
+	if c.Failed() {
+		return
+	}
+	if _, still := r.expGivT[cp.l]; still && !cp.l.dead {
+		delete(r.expGivT, cp.l)
+		// no GIVT at all: only right when nothing fits
+		seen := false
+		for _, f := range cp.received[before:] {
+			if p, _, ok := parseFrame(f); ok && p == "GIVT" {
+				seen = true
+			}
+		}
+		if !seen && len(exp.fit) > 0 {
+			c.Violate("not-longest-fitting-prefix", "GIVT:none", "node %d did not answer a request for %d of its pending transactions although %d of them fit %d bytes", n.id, len(exp.sizes), len(exp.fit), max)
+		}
+	}
+}
+
+// askBlocks: the scripted peer asks a node for blocks after an arbitrary height (what a peer that is behind does).
+func (r *netRun) askBlocks() {
+	c := r.c
+	t := c.T
+	cp, n := r.hashPeer, r.hashPeerNode
+	if cp == nil || cp.l.dead {
+		return
+	}
+	head := mustHead(n)
+	last := uint64(t.Int("askb-last", int(head)+1))
+	cnt := uint64(1 + t.Int("askb-count", 30))
+	g := daemon.NewGetBlocksMessage(last, cnt)
+	r.lastGetB[cp.l] = *g
+	r.ns.deliver(cp.l, frame("GETB", body(g)), nil)
+	r.ns.pump()
+	c.Count("fault.blocks_requested_by_scripted_peer")
+	c.Kind(13, true)
+	c.Logf("scripted peer asks n%d (head %d) for %d blocks after %d", n.id, head, cnt, last)
+}
